@@ -470,7 +470,10 @@ func c42HintProblem(got, want []string) string {
 		if g == w || (counter(g) && counter(w) && (g == "0" || w == "0")) {
 			continue
 		}
-		return fmt.Sprintf("sample %d: remote hint %s, local hint %s (%s)", i, g, w, want[i][:strings.Index(want[i], "|")])
+		if g == "" || w == "" {
+			return "" // different sample types: left to the sample comparison
+		}
+		return fmt.Sprintf("sample %d: remote hint %s, local hint %s (%v)", i, g, w, c42Times(want[i:i+1]))
 	}
 	return ""
 }
